@@ -2,6 +2,7 @@
 import random
 
 from knncommon import *  # noqa
+import c12_rounding
 
 KNN_FILES = ["Model/Heap", "Model/Knn", "Model/Pdf", "Model/KnnFit", "Model/RunKnn"]
 REQ = ("Model.Run", "Model.RunSup", "Model.RunKnn")
@@ -112,6 +113,11 @@ def main_c12(tier, seed):
             nviol += 1
             if nviol <= 3:
                 rep.violation("calculate_pdf: " + msg, d, key="calculate_pdf")
+        msg = c12_rounding.check(it.D, adj, k, sg, dens, cost)     # float-level facts of Props/C12_rounding.v, exact
+        if msg:
+            nviol += 1
+            if nviol <= 3:
+                rep.violation("calculate_pdf (float level): " + msg, d, key="calculate_pdf_rounding")
         h = rng.choice([-1.0, 0.0, 0.5, 3.0, 500.0, 2000.0])
         sg.eliminate_maxima_height(h)
         cost2 = [float(x.cost) for x in sg.nodes]
@@ -131,6 +137,11 @@ def main_c12(tier, seed):
     rep.corr["calculate_pdf"] = dict(cases=len(pterms), disagreements=None if bad2 is None else len(bad2))
     rep.corr["eliminate_maxima_height"] = dict(cases=len(eterms), disagreements=None if bad3 is None else len(bad3))
     rep.extra["oracle_violations"] = nviol
+    nviol += c12_rounding.directed(rep, seed, tier)
+    rep.extra["oracle_violations"] = nviol
+    rep.extra["float_level"] = c12_rounding.summary()
+    hyp = c12_rounding.binary64_hypotheses()
+    rep.obligation("binary64 satisfies the hypotheses on the rounding function of Props/C12_rounding.v (rnd 1 = 1, integers 0..7993, t - 1 < t)", hyp is None, hyp or "")
     rep.samples = descs[:2]
     rep.rule = ("sample sets: random features under 19 metrics, integer lattices, duplicated rows, pre-computed matrices over 1-3 weights; "
                 "k in {1,2,3,n-1,n,n+2}; every 7th case calls create_arcs twice without destroy_arcs (non-fresh form); heights in "
